@@ -2,9 +2,10 @@
     coq/C18/GridProofs.v for the grid layer).  All over the instance R of the
     model coq/C14/Calc.v; [knot g i] = exp (front + delta i) is the energy of
     knot i, [xs_at] is XsCalculator::operator[] (the table value at a knot). *)
-From Coq Require Import Reals ZArith List.
-From Celer Require Import Base.Num Base.NumR C18.Algorithms C18.Grids C18.GridProofs C14.Calc
-  C14.XsProofs C14.RangeProofs C14.LossProofs C14.MscProofs C14.LossWitness C14.LossExample C18.GridFlocq.
+From Coq Require Import Reals ZArith List Floats.
+From Celer Require Import Base.Num Base.NumR Base.NumF C18.Algorithms C18.Grids C18.GridProofs C14.Calc
+  C14.XsProofs C14.RangeProofs C14.LossProofs C14.MscProofs C14.LossWitness C14.LossExample C18.GridFlocq C14.Builder C14.BuilderProofs
+  C14.BuilderWitness.
 Import ListNotations.
 Local Open Scope R_scope.
 
@@ -172,3 +173,33 @@ Theorem C14_uniform_find_binary64_in_range : forall front back size v,
   (0 <= bin)%Z /\ (bin + 1 < size)%Z.
 Proof. exact find_bin_float_in_range. Qed.
 Print Assumptions C14_uniform_find_binary64_in_range.
+
+(** ** ValueGridXsBuilder::build (ValueGridBuilder.cc): the stored prime index.
+    Whatever of k-1 / k UniformGrid::find returns under roundoff, the soft_equal
+    correction yields k; over R the built table has E[prime_index] = eprime; without
+    the correction binary64 stores k-1 on Geant4's standard 85-point grid. *)
+Theorem C14_builder_fix_prime_law : forall rel abs grid le k bin,
+  (bin = k \/ bin = (k - 1)%Z) ->
+  soft_equal_tol rel abs (ug_at grid k) le = true ->
+  soft_equal_tol rel abs (ug_at grid (k + 1)) le = false ->
+  fix_prime rel abs grid le bin = k.
+Proof. exact fix_prime_law. Qed.
+Print Assumptions C14_builder_fix_prime_law.
+
+Theorem C14_builder_prime_index_law : forall rel abs lmin lmax n k,
+  0 <= rel -> 0 < abs -> (2 <= n)%Z -> lmin < lmax -> (0 <= k)%Z -> (k + 1 < n)%Z ->
+  let grid := ug_from_bounds lmin lmax n in
+  Rmax abs (rel * Rmax (Rabs (ug_at grid (k + 1))) (Rabs (ug_at grid k))) <= ug_delta grid ->
+  build_prime_index rel abs lmin (ug_at grid k) lmax n = k /\
+  knot (build_xs rel abs lmin (ug_at grid k) lmax (repeat 0 (Z.to_nat n)))
+       (build_prime_index rel abs lmin (ug_at grid k) lmax n) = exp (ug_at grid k).
+Proof. exact build_prime_index_law. Qed.
+Print Assumptions C14_builder_prime_index_law.
+
+Theorem C14_builder_uncorrected_refuted :
+  exists (lmin le lmax : PrimFloat.float) (n k : Z),
+    build_prime_index_uncorrected lmin le lmax n = (k - 1)%Z /\
+    build_prime_index 0x1.19799812dea11p-40%float 0x1.6849b86a12b9bp-47%float lmin le lmax n = k /\
+    PrimFloat.ltb (PrimFloat.abs (PrimFloat.sub (ug_at (ug_from_bounds lmin lmax n) k) le)) 0x1p-48%float = true.
+Proof. exact build_prime_uncorrected_refuted. Qed.
+Print Assumptions C14_builder_uncorrected_refuted.
